@@ -336,8 +336,28 @@ func c19HealthRun(extra []string, sets [][2]string, query string) (obs string) {
 			sc.Http.Rules = append(sc.Http.Rules, dynRule{Verb: "GET", Tmpl: fmt.Sprintf("/c19/hx%d", i), Selector: s}.toProto())
 		}
 	}
+	// another configuration of the same process got the health rules earlier and its owner has edited them
+	// since: that is nobody else's business
+	other := &serviceconfig.Service{}
+	health.AddHealthz(other)
+	if other.Http != nil {
+		for _, r := range other.Http.Rules {
+			r.Pattern = &annotations.HttpRule_Get{Get: "/internal/moved"}
+			r.AdditionalBindings = nil
+			r.Selector = "nobody.Home"
+		}
+	}
+	// the option value may be made before the configuration is complete: it is the configuration as it is
+	// when the Mux is built that counts (half of the cases, chosen by the input)
+	var opt larking.MuxOption
+	if len(sets)%2 == 1 {
+		opt = larking.ServiceConfigOption(sc)
+	}
 	health.AddHealthz(sc)
-	m, err := larking.NewMux(larking.ServiceConfigOption(sc))
+	if opt == nil {
+		opt = larking.ServiceConfigOption(sc)
+	}
+	m, err := larking.NewMux(opt)
 	if err != nil {
 		return "muxerr -"
 	}
